@@ -5,7 +5,7 @@
     time) and recorded, per event, what the implementation did and, after every event, the
     answers of `has_authorization` for every identity at the current time and at time 0.
     Here the model (with the toy WireGuard endpoint of Model_C09) runs the same events. *)
-From Sci Require Export Common.Outcome Snap.Model_C09 Snap.Spec_C09.
+From Sci Require Export Snap.Model_C09 Snap.Spec_C09.
 Local Open Scope N_scope.
 
 Inductive hev :=
@@ -37,6 +37,12 @@ Definition to_event (h : hev) : @event toy_pkt (list N) :=
   | HTick => ETick
   end.
 
+Fixpoint list_eqb {A} (eqb : A -> A -> bool) (x y : list A) : bool :=
+  match x, y with
+  | [], [] => true
+  | a :: x', b :: y' => eqb a b && list_eqb eqb x' y'
+  | _, _ => false
+  end.
 Definition bool_list_eqb (x y : list bool) : bool := list_eqb Bool.eqb x y.
 Definition count_data (l : list toy_pkt) : N :=
   N.of_nat (length (filter (fun p => match p with TData _ _ => true | _ => false end) l)).
